@@ -11,7 +11,7 @@ CONSTANTS
   GenBlockTypes = {"b", "c", "i"}
   GenNoteKinds = {"title", "D", "R", "N", "E", "I", "M"}
   GenSubTypes = {"B", "C", "S", "T", "W"}
-  Terse = FALSE
-  Rich = FALSE
+  Terse = 0
+  Rich = 1
   Phased = TRUE
 CHECK_DEADLOCK FALSE
